@@ -444,6 +444,7 @@ func init() {
 		c.runHelperDedupScope(r, "helper.dedupscope", all)
 		c.runImageCoordMerge(r, "image.coordmerge", "hlsl/internal/codegen")
 		c.runErrNilOnly(r, "errflow.nilonly", inPkgs("wgsl"), nil)
+		c.runSizeSignCheck(r, "size.signcheck", inPkgs("wgsl", "ir"))
 		cnt := map[string]int{}
 		for _, o := range r.Obs {
 			if o.Verdict == "ok" || o.Verdict == "trivial" {
@@ -857,4 +858,97 @@ func (c *Ctx) runErrNilOnly(r *Report, rule string, pkgs func(string) bool, exce
 	}
 	r.inst("errflow.usertype-lookups", total)
 	r.inst("errflow.nilonly", n)
+}
+
+// size.signcheck (C11): the constant evaluator answers a signed int64. A value
+// obtained from it that is converted to an unsigned integer type (an array size,
+// a count) must first be tested for negativity in the same function (a
+// comparison `< 0` / `<= 0` / `> 0` / `>= 1` on the same variable): uint64(-1)
+// is 18446744073709551615, and `array<i32, -1>` then becomes an array of
+// 4294967295 elements instead of the "size must be positive" diagnostic.
+var sizeSignExceptions = map[string]string{
+	"wgsl/internal/lower.Lowerer.evalConstBinaryExpr:val#1": "returns the two's-complement bits together with the scalar kind (a bit reinterpretation, not a size)",
+}
+
+func (c *Ctx) runSizeSignCheck(r *Report, rule string, pkgs func(string) bool) {
+	n := 0
+	for _, fn := range c.allFuncs() {
+		if !pkgs(fn.Pkg.Rel) {
+			continue
+		}
+		info := fn.Pkg.Info
+		// signed results of evaluator calls: v in `_, v, err := l.evalConstant...(...)`
+		evalVars := map[types.Object]string{}
+		ast.Inspect(fn.Decl.Body, func(m ast.Node) bool {
+			as, ok := m.(*ast.AssignStmt)
+			if !ok || len(as.Rhs) != 1 || len(as.Lhs) < 2 {
+				return true
+			}
+			call, ok := ast.Unparen(as.Rhs[0]).(*ast.CallExpr)
+			if !ok {
+				return true
+			}
+			f := calleeOf(info, call)
+			if f == nil || !strings.HasPrefix(f.Name(), "evalConst") {
+				return true
+			}
+			for _, l := range as.Lhs {
+				if id, ok := l.(*ast.Ident); ok && id.Name != "_" {
+					if o := info.ObjectOf(id); o != nil {
+						if b, ok := o.Type().Underlying().(*types.Basic); ok && b.Kind() == types.Int64 {
+							evalVars[o] = f.Name()
+						}
+					}
+				}
+			}
+			return true
+		})
+		if len(evalVars) == 0 {
+			continue
+		}
+		for v, src := range evalVars {
+			// conversions to unsigned
+			var convs []ast.Node
+			signTest := false
+			ast.Inspect(fn.Decl.Body, func(m ast.Node) bool {
+				switch x := m.(type) {
+				case *ast.ReturnStmt:
+					// only conversions that ARE the function's (unsigned) result: "evaluate as unsigned" helpers
+					for _, res := range x.Results {
+						if cv, ok := ast.Unparen(res).(*ast.CallExpr); ok && len(cv.Args) == 1 {
+							if tv, ok := info.Types[cv.Fun]; ok && tv.IsType() {
+								if b, ok := tv.Type.Underlying().(*types.Basic); ok && b.Info()&types.IsUnsigned != 0 {
+									if id, ok := ast.Unparen(cv.Args[0]).(*ast.Ident); ok && info.Uses[id] == v {
+										convs = append(convs, cv)
+									}
+								}
+							}
+						}
+					}
+				case *ast.BinaryExpr:
+					if id, ok := ast.Unparen(x.X).(*ast.Ident); ok && info.Uses[id] == v {
+						if k, ok := constInt(info, x.Y); ok {
+							switch {
+							case (x.Op == token.LSS || x.Op == token.LEQ || x.Op == token.GTR || x.Op == token.GEQ) && (k == 0 || k == 1):
+								signTest = true
+							}
+						}
+					}
+				}
+				return true
+			})
+			for i, cv := range convs {
+				n++
+				cons := fn.id() + ":" + v.Name() + "#" + itoa(i+1)
+				if signTest {
+					r.ok(rule, cons, c.pos(cv.Pos()), "")
+				} else if why := sizeSignExceptions[cons]; why != "" {
+					r.exc(rule, cons, c.pos(cv.Pos()), why)
+				} else {
+					r.viol(rule, cons, c.pos(cv.Pos()), fn.id()+" converts "+v.Name()+", the signed result of "+src+", to an unsigned type without testing its sign: a negative constant becomes a huge positive size instead of being rejected")
+				}
+			}
+		}
+	}
+	r.inst("size.signcheck", n)
 }
